@@ -150,6 +150,27 @@ theorem blocksEvents_coherent : ∀ (cs : List Cached), (∀ c ∈ cs, c.Coheren
 /-- table tie: the text `_intro` is what `_getXml` would emit for `stdIfaces` -/
 theorem std_events : ifacesEvents stdIfaces = .ok introEvents := by decide
 
+/-! ### the templates of `_getXml`, probed -/
+
+/-- the probe interface of the table, declared through the modelled API -/
+def probeOps : List Op :=
+  Gen.IntroStd.probeMethods.map (fun x => Op.addMethod (Method.new x.1 x.2.1 x.2.2)) ++
+  Gen.IntroStd.probeSignals.map (fun x => Op.addSignal (Signal.new x.1 x.2)) ++
+  Gen.IntroStd.probeProperties.map (fun x => Op.addProperty (Property.new x.1 x.2.1 x.2.2.1 x.2.2.2.1
+    (match x.2.2.2.2 with
+     | 0 => EmitsArg.true
+     | 1 => EmitsArg.false
+     | _ => EmitsArg.invalidates)))
+
+/-- table tie: for the probe interface (methods with and without arguments, a signal, a property per access and
+change-notification mode) the model's `_getXml` emits exactly the events of the text the real `_getXml` wrote
+when the table was generated - element and attribute names, attribute order, member order, access and emits
+strings. -/
+theorem probe_events :
+    (match (Cached.new Gen.IntroStd.probeName).applyAll probeOps with
+     | .ok c => ifaceEvents c.iface
+     | .error e => .error e) = .ok (Gen.IntroStd.probeEvents.map toEvent) := by decide
+
 /-- executable form of `Interface.WF` -/
 def Method.consistentB (m : Method) : Bool :=
   match genCompleteTypes m.sigIn, genCompleteTypes m.sigOut with
